@@ -340,6 +340,28 @@ def hand_callee_writes(x: fp.Real, y: fp.Real, xs: list[fp.Real], k: fp.Real):
     for e in us:
         acc = e
     return (a, acc)''',
+    'hand_running_max': '''@fp.fpy
+def hand_running_max(x: fp.Real, y: fp.Real, xs: list[fp.Real], k: fp.Real):
+    with fp.REAL:
+        lo = -fp.inf()
+        m = max(lo, x)
+        for e in xs:
+            m = max(m, e)
+        hi = fp.inf()
+        n = min(hi, y)
+    return (m, n)''',
+    'hand_long_range': '''@fp.fpy
+def hand_long_range(x: fp.Real, y: fp.Real, xs: list[fp.Real], k: fp.Real):
+    with fp.REAL:
+        a = 0
+        for i in range(-20, 3):
+            j = i
+            a = a + j
+        b = 0
+        for i in range(40, 2, -2):
+            j2 = i
+            b = b + j2
+    return (a, b)''',
     'hand_abs': '''@fp.fpy
 def hand_abs(x: fp.Real, y: fp.Real, xs: list[fp.Real], k: fp.Real):
     a = abs(x)
